@@ -96,6 +96,12 @@ def expand(item, seed):
                                                    {"op": "send", "len": 1}, {"op": "recv"}, {"op": "ping"},
                                                    {"op": "close", "status": 1000, "rlen": 0, "timeout": tmo}],
                                    "script": script, "reaction": reaction, "timeout": 2 * S, "seed": 1}
+        for tmo in (S, 2 * S):
+            for frac in (4, 2):
+                for reaction in ("never", "reply_slow", "reply"):
+                    # the write of the close frame itself is held up for part of the timeout; the server then stays silent
+                    yield {"steps": [{"op": "close", "status": 1000, "rlen": 0, "timeout": tmo}], "script": [], "reaction": reaction,
+                           "timeout": 4 * S, "seed": 1, "send_stall": {"1": tmo // (2 * frac) + tmo // 8}}
     else:
         for i in range(item["start"], item["start"] + item["count"]):
             yield gen(random.Random(derive_seed(seed, ID, i)))
@@ -144,6 +150,14 @@ def gen(rng):
     if rng.random() < 0.2:
         # the transport fails while the client is writing (possibly in the middle of its close frame)
         sc["send_fault"] = {"after_bytes": rng.choice((0, 1, 2, 3, 5, 6, 7, 8, 12, 20)), "errno": rng.choice(("TIMEOUT", "EPIPE", "ECONNRESET"))}
+    elif rng.random() < 0.2:
+        # the peer's window is closed for a while at some writes: the write (also that of the close frame) takes d
+        d = rng.choice((S // 8, S // 4, S // 2))
+        sc["send_stall"] = {str(n): d for n in rng.sample(range(1, 14), rng.randrange(1, 5))}
+        for st in steps:
+            if st["op"] == "close":
+                st["timeout"] = rng.choice((S, 3 * S))
+        sc["timeout"] = 2 * S
     if rng.random() < 0.25:
         # blocking socket (the library default): only calls that cannot block for ever on a silent peer
         sc["timeout"] = None
@@ -353,6 +367,14 @@ def run(sc, choices=None):
         if sf.get("errno") not in ("TIMEOUT", "EPIPE", "ECONNRESET") or not 0 <= int(sf.get("after_bytes", 0)) <= 4000:
             raise InvalidScenario("send_fault")
         sockcfg = {"send_fail": {"after_bytes": int(sf["after_bytes"]), "errno": sf["errno"]}}
+    if sc.get("send_stall"):
+        if sf is not None or any(not 0 < int(v) <= 4 * S for v in sc["send_stall"].values()):
+            raise InvalidScenario("send_stall")
+        sockcfg["send_stall"] = {int(a): int(b) for a, b in sc["send_stall"].items()}
+        cts = [int(st.get("timeout", S)) for st in steps if st["op"] == "close"]
+        if any(ct < 2 * max(sockcfg["send_stall"].values()) for ct in cts) or (T is not None and T < 2 * max(sockcfg["send_stall"].values())):
+            # a write held up for longer than the timeout is the send_fault TIMEOUT case; here the write gets through late
+            raise InvalidScenario("stall must stay below half of every timeout")
     w, peers = std_world(seed=int(sc.get("seed", 1)), peer_cfg=peer_cfg, sock=sockcfg, step_cap=300_000)
     state = "OPEN"  # OPEN | CLOSE_SENT | PEER_CLOSED | CLOSED
     own_close_frames = 0
@@ -604,4 +626,4 @@ def sample_view(sc, r):
     if sc.get("kind") == "threaded":
         return {k: sc.get(k) for k in ("reader", "timeout", "pre", "wait", "status", "close_timeout", "script", "reaction", "policy", "peer_close_at")}
     return {"steps": sc["steps"], "peer_script": [{k: v for k, v in it.items()} for it in sc.get("script", ())],
-            "reaction": sc.get("reaction"), "socket_timeout_ticks": sc.get("timeout"), "send_fault": sc.get("send_fault")}
+            "reaction": sc.get("reaction"), "socket_timeout_ticks": sc.get("timeout"), "send_fault": sc.get("send_fault"), "send_stall": sc.get("send_stall")}
